@@ -245,7 +245,10 @@ def run_ctl (scn, schedule, policy, seed):
           obs["raised"].append(("close", traceback.format_exc()[-500:]))
     # wind down: everything drains, the sender gets all the time it wants,
     # and the OpenFlow task would close what is disconnected
-    for rnd in range(3):
+    # (one round per remaining "blocked" script entry: each round only takes
+    #  away the entries at the head of a script)
+    rounds = 3 + sum(sc.count("eagain_blocked") for sc in scn["scripts"])
+    for rnd in range(rounds):
       for ci in range(ncons):
         while obs["socks"][ci].unblock(): pass
       c.block(sender_quiet, None, "flush")
@@ -535,7 +538,8 @@ def run_iow (case, rep):
     fire("%s raises" % ("send_fast" if raised[0][0] == "fast" else raised[0][0]),
          raised[0][1])
   else:
-    for rnd in range(3):
+    rounds = 3 + sum(sc.count("eagain_blocked") for sc in case["scripts"])
+    for rnd in range(rounds):
       for s in socks:
         while s.unblock(): pass
       w.run()
